@@ -95,8 +95,9 @@ class Universe:
         self.symtie = bool(spec.get('symtie'))
         self.ts = [z3.Int('tie%d' % i) for i in range(1, self.n + 1)] if self.symtie else None
         self.extra = header_extra(spec)
+        self.names = spec.get('names')
         # which lines survive the reader (withdrawn stripped)?  Probe once, concretely.
-        prof, kept = make_profile(self.n, self.seats, self.lines, [1] * len(self.lines), self.extra)
+        prof, kept = make_profile(self.n, self.seats, self.lines, [1] * len(self.lines), self.extra, self.names)
         self.kept = kept
         self.eligible = sorted(prof.eligible)
         self.withdrawn = sorted(prof.withdrawn)
@@ -124,7 +125,7 @@ class Universe:
         mults = [SymInt(v) for v in self.ms] if mults is None else mults
         if tie is None and self.ts:
             tie = [SymInt(t) for t in self.ts]
-        prof, kept = make_profile(self.n, self.seats, self.lines, mults, self.extra, tie_ranks=tie)
+        prof, kept = make_profile(self.n, self.seats, self.lines, mults, self.extra, self.names, tie_ranks=tie)
         return prof
 
     def concretize(self, model):
@@ -137,7 +138,7 @@ class Universe:
         tie = None
         if tvals:
             tie = [c for c, _ in sorted(zip(range(1, self.n + 1), tvals), key=lambda x: x[1])]
-        return blt_text(self.n, self.seats, self.lines, mvals, self.extra, tie=tie)
+        return blt_text(self.n, self.seats, self.lines, mvals, self.extra, self.names, tie=tie)
 
 
 def election_options(spec):
